@@ -27,14 +27,16 @@ ABSENT = "-"
 POLICIES = [sorted(p) for n in range(4) for p in itertools.combinations(["add", "change", "remove"], n)]
 
 
-def _vals(names):
+def _vals(names, alg="md5"):
+    """The values a listing maps keys to; with alg != "md5" the files were hashed with the optional other algorithm
+    (build(..., "sha256")) - the directory object itself is still named by its md5."""
     from dvc_data.hashfile.hash_info import HashInfo
     from dvc_data.hashfile.meta import Meta
 
     out = {}
     for v in names:
-        h = hashlib.md5(f"content of {v}".encode()).hexdigest()
-        out[v] = (Meta(md5=h), HashInfo("md5", h))
+        h = hashlib.new(alg, f"content of {v}".encode()).hexdigest()
+        out[v] = (Meta(md5=h) if alg == "md5" else Meta(size=len(v)), HashInfo(alg, h))
     return out
 
 
@@ -65,14 +67,14 @@ def _call(a, o, t, pol, vals):
     return {"kind": "merged", "m": _abstract(m, vals), "canon": "n/a"}
 
 
-def canonical_dir_oid(listing, vals):
+def canonical_dir_oid(listing, vals, alg="md5"):
     """Independent canonical encoder of a listing (oracle for the identifier)."""
-    lst = [{"md5": vals[v][1].value, "relpath": "/".join(CONCRETE_KEYS[k])} for k, v in listing.items()]
+    lst = [{alg: vals[v][1].value, "relpath": "/".join(CONCRETE_KEYS[k])} for k, v in listing.items()]
     lst.sort(key=lambda e: e["relpath"])
     return hashlib.md5(json.dumps(lst, sort_keys=True).encode()).hexdigest() + ".dir"
 
 
-def _e2e(a, o, t, pol, vals, odb):
+def _e2e(a, o, t, pol, vals, odb, alg="md5"):
     """tree.merge through a real store."""
     from dvc_data.hashfile.tree import MergeError, Tree, merge
 
@@ -93,7 +95,7 @@ def _e2e(a, o, t, pol, vals, odb):
     except BaseException as exc:  # noqa: BLE001
         return {"kind": "exc", "type": type(exc).__name__}
     m = _abstract(merged.as_dict(), vals)
-    ok = "corrupt" not in m.values() and merged.oid == canonical_dir_oid(m, vals) and merged.hash_info.value == merged.oid
+    ok = "corrupt" not in m.values() and merged.oid == canonical_dir_oid(m, vals, alg) and merged.hash_info.value == merged.oid
     return {"kind": "merged", "m": m, "canon": "yes" if ok else "no"}
 
 
@@ -119,8 +121,11 @@ def _work(args):
 
                 os.makedirs(sandbox, exist_ok=True)
                 odb = HashFileDB(LocalFileSystem(), os.path.join(sandbox, f"odb{os.getpid()}"))
+            # every other end-to-end triple lists files hashed with the optional other algorithm
+            alg = ("md5", "sha256")[idx % 2]
+            avals = vals if alg == "md5" else _vals(valnames, alg)
             for pol in policies:
-                calls.append({"pol": pol, "fwd": _e2e(a, o, t, pol, vals, odb), "rev": _call(a, t, o, pol, vals)})
+                calls.append({"pol": pol, "fwd": _e2e(a, o, t, pol, avals, odb, alg), "rev": _call(a, t, o, pol, vals)})
         recs.append({"a": a, "o": o, "t": t, "calls": calls})
     return recs
 
